@@ -43,6 +43,7 @@ FEATURES = [
     "NAME_ECHO",
     "TRAILING_UNDERSCORE",
     "DOC_TYPE_MISMATCH",
+    "INIT_DEFINED",
 ]
 
 DOC_STYLES = ["PLAINTEXT", "NUMPYDOC", "GOOGLE", "REST"]
@@ -624,7 +625,7 @@ class PackageGenerator:
         r = self.r
         top = self.top
         subs = r.sample(["a", "b", "core", "util"], r.randint(1, 3))
-        if self.f("TIE_REEXPORT"):
+        if self.f("TIE_REEXPORT") or self.f("INIT_DEFINED"):
             for s in ("a", "b"):
                 if s not in subs:
                     subs.append(s)
@@ -722,6 +723,13 @@ class PackageGenerator:
                 ms_ = self.new_module(top, "_impl_sideways")
                 self.fill_module(ms_, 1, 1)
                 self.inits[f"{top}.{sub_b}"].append(f"from {top} import _impl_sideways as sideways")
+            if sub_a != sub_b and r.random() < 0.5:
+                # one module re-exported AS A MODULE by two packages of equal depth: one renames it, one keeps its name
+                me2 = self.new_module(top, "engine_impl")
+                self.fill_module(me2, 1, 1)
+                first, second = sorted([sub_a, sub_b])
+                self.inits[f"{top}.{first}"].append(f"from {top} import engine_impl as engine")
+                self.inits[f"{top}.{second}"].append(f"from {top} import engine_impl")
             mm = self.new_module(f"{top}.{sub_a}", "_modre")
             self.fill_module(mm, 1, 2)
             if r.random() < 0.5:
@@ -785,7 +793,11 @@ class PackageGenerator:
             mt.body.append("def pair(a: T, b: K) -> tuple[T, K]:\n    ...\n")
             mt.body.append("class ReadOnly(Generic[V_co]):\n    def peek(self) -> V_co:\n        ...\n")
             mt.body.append("class Box(Generic[T]):\n    def __init__(self, item: T) -> None:\n        self.item = item\n\n    def get(self) -> T:\n        ...\n")
-            mt.all_classes += ["Box", "ReadOnly"]
+            mt.add_import("from typing import TypeVar")
+            mt.body.append('KT = TypeVar("KT")\nVT = TypeVar("VT")\nZT = TypeVar("ZT")\n')
+            mt.body.append("class Pair:\n    def __init__(self, key: KT, value: VT, extra: ZT) -> None:\n        self.key = key\n        self.value = value\n\n"
+                           "    def swap(self, a: VT, b: KT) -> tuple[KT, VT]:\n        ...\n")
+            mt.all_classes += ["Box", "ReadOnly", "Pair"]
             # type variables of the same names used by NON-generic classes of other modules (before and after in name order)
             for uname in ("a_typevar_user", "typevar_user_z"):
                 mu2 = self.new_module(top, uname)
@@ -823,6 +835,19 @@ class PackageGenerator:
             mp.body.append(self.gen_function(mp, pre, mp.qname))
             self.inits[top].append(f"from {mp.qname} import {pre}")
             self.probes.setdefault("name_echo", []).append({"package": pk, "names": [echo, pre]})
+
+        if self.f("INIT_DEFINED"):
+            # declarations defined directly in a sub-package's __init__.py, re-exported by the parent package(s)
+            pk = f"{top}.{sub_a}"
+            self.inits[pk].append("class InitThing:\n    def ping(self, n: int = 0) -> int:\n        ...\n\n\ndef init_func(x: int) -> InitThing:\n    ...\n")
+            self.inits[top].append(f"from {pk} import InitThing")
+            if r.random() < 0.5:
+                self.inits[top].append(f"from {pk} import init_func")
+            for other in [x for x in subs if x != sub_a][:2]:
+                # sibling packages re-export it too; each of them holds an ordinary module, so that its __init__ is analysed
+                self.inits[f"{top}.{other}"].append(f"from {pk} import InitThing")
+                mo_ = self.new_module(f"{top}.{other}", f"beside_{other.strip('_')}")
+                mo_.body.append(self.gen_function(mo_, f"beside_{other.strip('_')}_fn", mo_.qname))
 
         if self.f("TRAILING_UNDERSCORE"):
             # names that end in underscores (the usual way to avoid keywords/builtins): modules, re-exported declarations
